@@ -278,6 +278,14 @@ var name = rapid.OneOf(
 	}),
 	nameFill,
 	rapid.Custom(func(t *rapid.T) string {
+		// Names that other parsers also understand: an IP literal (with a zone
+		// that contains dots and ends like a TLD) glued to ordinary labels.
+		// They are judged by the name grammar like any other string.
+		ip := rapid.SampledFrom([]string{"fe80::1", "::1", "::ffff:10.0.0.1", "1.2.3.4", "2001:db8::", "fe80::", "0x7f.1", "127.1"}).Draw(t, "ip")
+		tail := rapid.SampledFrom([]string{"%eth0.lan", "%eth0..lan", "%" + strings.Repeat("a", 64) + ".lan", "%eth0.xn--0.lan", "%x.com", ".example", "%.", "%eth0.123", "%" + strings.Repeat("abcdefgh.", 30) + "example", "%-a.b-", ""}).Draw(t, "tail")
+		return ip + tail
+	}),
+	rapid.Custom(func(t *rapid.T) string {
 		// A valid (or long) name with one label wrapped as a fake A-label.
 		base := validName
 		if rapid.IntRange(0, 4).Draw(t, "long") == 0 {
@@ -772,7 +780,7 @@ var (
 		"next=/a\\u0026b=1", "x=\\u003cb\\u003e", "a=\\\\", "a=\\\"", "q=&amp;", "q=\\n", "t=\U000E0067\U000E007F", "p=\U000F0001", "e=\U0001F600", "n=\u2028"})
 	urlFrag   = rapid.SampledFrom([]string{"", "f", "a b", "%41", "<x>", "\"", "é", "%zz", "a#b"})
 	urlPiece  = rapid.OneOf(
-		rapid.SampledFrom([]string{"http", "https", "grpc", "file", "mailto", ":", "//", "/", "?", "#", "@", "user", "pass", "host", "example.com", "[::1]", "[fe80::1%25eth0]", "1.2.3.4", ":80", ":", "%2F", "%20", "%zz", "%", "&", "=", "<", ">", "\"", "'", "\\", " ", "+", ";", "é", "世", " ", "a", "b", "..", ".", "*", "|", "^", "`", "{", "}", "~", "!", "$", ",", "\\u0026", "\\u003c", "\\u003e", "\\\\", "\U000E0067", "\U0010FFFD"}),
+		rapid.SampledFrom([]string{"http", "https", "grpc", "file", "mailto", ":", "//", "/", "?", "#", "@", "user", "pass", "host", "example.com", "[::1]", "[fe80::1%25eth0]", "1.2.3.4", ":80", ":", "%2F", "%20", "%zz", "%", "&", "=", "<", ">", "\"", "'", "\\", " ", "+", ";", "é", "世", " ", "a", "b", "..", ".", "*", "|", "^", "`", "{", "}", "~", "!", "$", ",", "\\u0026", "\\u003c", "\\u003e", "\\\\", "\U000E0067", "\U0010FFFD", "null", "true", "false", "NaN", "0", "-1", "\"\"", "{}", "[]", "undefined"}),
 		rapid.StringN(0, 3, -1),
 	)
 	urlEditAlphabet = []string{":", "/", "?", "#", "@", "%", "&", "<", ">", "\"", "\\", " ", "é", "[", "]", "a"}
